@@ -428,7 +428,7 @@ func c15Convert(c *Ctx) {
 						return false
 					}
 					lk, ok := ex.Tuple.(*ssa.Lookup)
-					return ok && lk.X == ssa.Value(fn.Params[1]) && fromParse(lk.Index, 0)
+					return ok && SliceAny(lk.X, func(m ssa.Value) bool { return m == ssa.Value(fn.Params[1]) }) && fromParse(lk.Index, 0)
 				})
 			}
 			okStep = SliceAny(app.Call.Args[1], isConv)
@@ -436,7 +436,12 @@ func c15Convert(c *Ctx) {
 		c.Check(okStep, "O15.3", key+":appended-step-is-the-named-request", fn.Pos(), "the appended step is convertConfigTo*(reqs[name]) for the parsed name")
 		// sleep item: adds to the last element, guarded by len > 0, amount = parsed first argument
 		okSleep, okGuard := false, false
-		EachInstr(fn, func(in ssa.Instruction) {
+		eachRegion := func(f func(ssa.Instruction)) {
+			for _, g2 := range region {
+				EachInstr(g2, f)
+			}
+		}
+		eachRegion(func(in ssa.Instruction) {
 			st, ok := in.(*ssa.Store)
 			if !ok {
 				return
@@ -465,9 +470,13 @@ func c15Convert(c *Ctx) {
 			if !ok || !IsBuiltinCall(lc, "len") {
 				return
 			}
-			// dominated by name == "sleep"
+			// dominated by name == "sleep" (in the converter; for a store inside a helper: at the helper's call)
 			isSleep := false
-			for _, f := range CmpFactsAt(st) {
+			factsAt := ssa.Instruction(st)
+			if lifted := LiftTo(fn, st); lifted != nil {
+				factsAt = lifted
+			}
+			for _, f := range CmpFactsAt(factsAt) {
 				if f.Op == token.EQL {
 					for _, side := range []ssa.Value{f.X, f.Y} {
 						if s, ok := ConstString(side); ok && s == "sleep" {
